@@ -215,11 +215,16 @@ func (u *uploader) ListParts(bucket, object string, uploadID UploadID, marker in
 		StorageClass:     "STANDARD", // FIXME
 	}
 
+	if marker > len(mpu.parts) {
+		marker = len(mpu.parts)
+	}
+
 	var cnt int64
-	for partNumber, part := range mpu.parts[marker:] {
+	for idx, part := range mpu.parts[marker:] {
 		if part == nil {
 			continue
 		}
+		partNumber := marker + idx
 
 		if cnt >= limit {
 			result.IsTruncated = true
